@@ -361,6 +361,9 @@ fn run_once(
                     continue;
                 }
                 let risk = checks::capacity_risk(&env);
+                if std::env::var("SIMCHECK_DEBUG").is_ok() {
+                    eprintln!("reopen #{i}: risk={risk} free runs {:?} unflushed {:?}", env.st().verif_space().runs_by_start, checks::unflushed_extents(&env).iter().map(|(k, b)| (k.len(), *b)).collect::<Vec<_>>());
+                }
                 env.close();
                 let now0 = sim.now_wall();
                 if let Err(e) = env.open() {
